@@ -145,7 +145,11 @@ def check_formula(term, rec, tag, keyname, case, forms, share=False):
                                   f'(engine bioExprPowerConstant.cc omits the factor f(child))',
                                   dict(case, point=label, form=form), expected=expected, observed=observed)
                     return
-            rec.violation(f'C02|{clause}|{form}:{keyname}',
+            kn = keyname
+            if form == 'biogeme_in_model' and clause.startswith(('raised-ValueError', 'raised-BiogemeError', 'reported-', 'derivatives-size')):
+                # what the model reports as its names / accepts as a vector does not depend on the kind of formula
+                kn = 'any-formula'
+            rec.violation(f'C02|{clause}|{form}:{kn}',
                           f'{clause} [{form}] for {R.show(term)} ({label}); free={free}',
                           dict(case, point=label, form=form), expected=expected, observed=observed)
 
@@ -374,6 +378,57 @@ def check_formula(term, rec, tag, keyname, case, forms, share=False):
                 elif not _cmp_mat(bm, [[x / div for x in r_] for r_ in aggB]):
                     fail('likelihood-bhhh', form, aggB, bm)
 
+            elif form == 'biogeme_in_model':
+                # the formula is the log likelihood of a model made of several formulas; another formula (for simulation)
+                # brings two parameters of its own, one sorting before and one after every parameter of the alphabet.  The
+                # vector is built from the names the model reports; entry i must belong to the i-th reported name.
+                own = {'AA_other_first': 0.625, 'zz_other_last': -0.375}
+
+                def run5():
+                    import biogeme.expressions as ex
+                    other = ex.Beta('AA_other_first', own['AA_other_first'], None, None, 0) * ex.Variable(G.COLUMNS[0]) \
+                        + ex.exp(ex.Beta('zz_other_last', own['zz_other_last'], None, None, 0))
+                    b = make_biogeme(db, {'simulated': other, 'log_like': expr})
+                    names = list(b.free_beta_names)
+                    if any(a >= c for a, c in zip(names, names[1:])) or not set(free) <= set(names) \
+                            or not set(names) <= set(free) | set(own):
+                        return names, None
+                    x = np.array([own[nm] if nm in own else full[nm] for nm in names], dtype=float)
+                    return names, b.calculate_likelihood_and_derivatives(x, scaled=False, hessian=True, bhhh=True)
+
+                out = guard(form, run5)
+                if out is None:
+                    continue
+                names, res = out
+                rec.case(key, (tag, label, form, names, None if res is None else round(float(res.function), 8)), outcome='ok')
+                if res is None:
+                    fail('reported-free-names-not-sorted', form, sorted(set(free) | set(own)), names)
+                    continue
+                m_ = len(names)
+                g_all = np.asarray(res.gradient, dtype=float)
+                h_all = np.asarray(res.hessian, dtype=float)
+                b_all = np.asarray(res.bhhh, dtype=float)
+                if g_all.shape != (m_,) or h_all.shape != (m_, m_) or b_all.shape != (m_, m_):
+                    fail('derivatives-size-differs-from-reported-names', form, names, (g_all.shape, h_all.shape, b_all.shape))
+                    continue
+                pos = [names.index(nm) for nm in free]
+                oth = [i for i in range(m_) if names[i] not in free]
+                g = [float(g_all[p]) for p in pos]
+                h = [[float(h_all[p][q]) for q in pos] for p in pos]
+                bm = [[float(b_all[p][q]) for q in pos] for p in pos]
+                foreign = [float(g_all[i]) for i in oth] + [float(h_all[i][j]) for i in oth for j in range(m_)] + \
+                    [float(h_all[j][i]) for i in oth for j in range(m_)] + [float(b_all[i][j]) for i in oth for j in range(m_)]
+                if not dclose(float(res.function), aggF):
+                    fail('likelihood-value', form, aggF, float(res.function))
+                elif not _cmp_vec(g, aggG):
+                    fail('gradient-entry-i-not-the-derivative-for-the-i-th-reported-name', form, dict(zip(free, aggG)),
+                         dict(zip(names, map(float, g_all))))
+                elif not _cmp_mat(h, aggH):
+                    fail('likelihood-hessian', form, aggH, h)
+                elif not _cmp_mat(bm, aggB):
+                    fail('likelihood-bhhh', form, aggB, bm)
+                elif any(v != 0.0 for v in foreign):
+                    fail('derivative-for-a-parameter-the-formula-does-not-contain', form, 0.0, foreign)
 
             elif form == 'biogeme_history':
                 if label != 'defaults':
@@ -451,7 +506,7 @@ def _parse_and_cmp(obs, agg):
 
 
 ALL_FORMS = ['disagg', 'disagg_named', 'agg', 'agg_named', 'agg_named_in_model', 'flags_g', 'flags_gb', 'flags_gh', 'create_function', 'objective',
-             'biogeme', 'biogeme_scaled', 'biogeme_history']
+             'biogeme', 'biogeme_scaled', 'biogeme_in_model', 'biogeme_history']
 
 
 def triple_list():
@@ -496,6 +551,12 @@ def tasks(tier, seed):
         for i in range(0, len(tri), chunk):
             t.append(dict(part='triple', lo=i, hi=min(i + chunk, len(tri)), rot=rot, tier=tier))
     t.append(dict(part='findiff'))
+    for pi in range(len(pool())):
+        nfd = len(list(_fd_space(tier, pi)))
+        for lo in range(0, nfd, 8):
+            t.append(dict(part='findiff_scaled', pool=pi, tier=tier, lo=lo, hi=min(lo + 8, nfd)))
+        for config in MODEL_CONFIGS:
+            t.append(dict(part='model_formulas', pool=pi, config=config))
     t.append(dict(part='named_api'))
     t.append(dict(part='integrate'))
     for pi in range(len(pool())):
@@ -550,6 +611,13 @@ def run_task(task):
                                       ['disagg', 'agg'])
         elif part == 'findiff':
             _findiff(rec)
+        elif part == 'findiff_scaled':
+            for sub, mag, signs in list(_fd_space(task['tier'], task['pool']))[task['lo']:task['hi']]:
+                _findiff_scaled(rec, task['pool'], sub, mag, signs)
+        elif part == 'model_formulas':
+            for order in MODEL_ORDERS:
+                for point in MODEL_POINTS:
+                    _model_formulas(rec, task['pool'], task['config'], order, point)
         elif part == 'named_api':
             _named_api(rec)
         elif part == 'integrate':
@@ -833,6 +901,345 @@ def _findiff_one(rec, pi, term, point):
                       observed=list(map(float, gdiff)))
 
 
+# ------------------------------------------------------------------ models made of several formulas
+# parameters that only the *other* formulas of a model contain: one sorting before every parameter of the alphabet, one
+# between them ('B2' < 'b10' < 'b5_own_mid' < 'b_a' < 'b_z' in ASCII order), one after them; and a fixed one
+OWN = {'A0_own_first': 0.375, 'b5_own_mid': -0.625, 'zz_own_last': 0.875}
+OWN_FIXED = ('A1_own_fixed', 1.75)
+# configuration -> (list of extra formulas, each a tuple of own-parameter names ('@reuse' = only a parameter of the log
+#                   likelihood, '@fixed' = a fixed parameter of its own), weight formula or None)
+MODEL_CONFIGS = {
+    'dict-of-one-formula': ([], None),
+    'other-formula-reusing-a-parameter': ([('@reuse',)], None),
+    'other-formula-with-a-fixed-parameter-of-its-own': ([('@fixed', '@reuse')], None),
+    'other-formula-with-own-parameter-sorting-first': ([('A0_own_first', '@reuse')], None),
+    'other-formula-with-own-parameter-sorting-in-between': ([('b5_own_mid',)], None),
+    'other-formula-with-own-parameter-sorting-last': ([('zz_own_last', '@reuse')], None),
+    'two-other-formulas-with-own-parameters': ([('zz_own_last', 'A0_own_first'), ('b5_own_mid', '@reuse')], None),
+    'weight': ([], 'var'),
+    'weight-and-other-formula-with-own-parameters': ([('A0_own_first', 'zz_own_last')], 'var'),
+    'weight-with-a-fixed-parameter': ([('b5_own_mid',)], 'fixed'),
+}
+MODEL_ORDERS = ('likelihood-first', 'likelihood-last')
+MODEL_POINTS = ('declared', 'shifted')
+
+
+def _model_formulas(rec, pi, config, order, point):
+    """A BIOGEME object built from a dictionary of formulas: the log likelihood, and other formulas (for simulation; the
+    weight) that bring parameters of their own into the model, sorting before / between / after those of the log
+    likelihood.  The vector is built from the list of names the object reports; entry i of what
+    calculate_likelihood_and_derivatives (scaled or not) and check_derivatives return must be the derivative of the
+    reported value with respect to the i-th reported name (zero for a parameter the log likelihood does not contain)."""
+    import numpy as np
+    import biogeme.expressions as ex
+    from vf.engine import make_db, make_biogeme, is_engine_error
+    term = pool()[pi]
+    free = sorted(b for b in R.leaves(term, 'beta') if b in G.FREE)
+    extras, weight = MODEL_CONFIGS[config]
+    values = dict(G.PARAMS)
+    values.update(OWN)
+    if point == 'shifted':
+        for k, nm in enumerate(sorted(values)):
+            if nm not in G.FIXED:
+                values[nm] = values[nm] + 0.0625 * (k + 1) * (1 if k % 2 else -1)
+    rows = ref_rows(term, values, free, rec)
+    case = dict(part='model_formulas', pool=pi, config=config, order=order, point=point)
+    key = ('model_formulas', pi, config, order, point)
+    if not rows:
+        rec.case(None, key + ('no-row',), outcome='no-valid-row')
+        return
+    wcol = 'x1'   # positive in every table
+    wfix = 2.0
+    ws = [1.0 if weight is None else (r[1][wcol] if weight == 'var' else r[1][wcol] * wfix) for r in rows]
+    n = len(free)
+    aggF = sum(w * r[2] for w, r in zip(ws, rows))
+    aggG = [sum(w * r[3][i] for w, r in zip(ws, rows)) for i in range(n)]
+    aggH = [[sum(w * r[4][i][j] for w, r in zip(ws, rows)) for j in range(n)] for i in range(n)]
+    aggB = _sum_mat([_outer(r[3]) for r in rows], n) if weight is None else None
+    nz = any(x != 0.0 for x in aggG)
+    db = make_db([r[1] for r in rows], G.COLUMNS)
+
+    def fail(clause, expected=None, observed=None, what=''):
+        rec.violation(f'C02|{clause}|model-of-several-formulas:{config}',
+                      f'{clause} for a model {{{order}}} whose log likelihood is {R.show(term)} ({point} values){what}',
+                      case, expected=expected, observed=observed)
+
+    def build():
+        loglike = R.Builder(G.betas_spec()).build(term)
+        others = {}
+        for k, spec in enumerate(extras):
+            f = ex.Variable(G.COLUMNS[0]) * 0.5
+            for j, nm in enumerate(spec):
+                if nm == '@reuse':
+                    v = G.PARAMS[free[(k + j) % n]]
+                    b = ex.Beta(free[(k + j) % n], v, None, None, 0)
+                elif nm == '@fixed':
+                    b = ex.Beta(OWN_FIXED[0], OWN_FIXED[1], None, None, 1)
+                else:
+                    b = ex.Beta(nm, OWN[nm], None, None, 0)
+                f = f + b * ex.Variable('x1') if j % 2 == 0 else f * ex.exp(b * 0.25)
+            others[f'simulated_{k}'] = f
+        if weight == 'var':
+            others['weight'] = ex.Variable(wcol)
+        elif weight == 'fixed':
+            others['weights'] = ex.Variable(wcol) * ex.Beta('A2_weight_fixed', wfix, None, None, 1)
+        if order == 'likelihood-first':
+            d = {'log_like': loglike}
+            d.update(others)
+        else:
+            d = dict(others)
+            d['loglike'] = loglike
+        return make_biogeme(db, d)
+
+    try:
+        b = build()
+        names = list(b.free_beta_names)
+    except Exception as e:
+        rec.case(key, key + (type(e).__name__,), outcome='raised')
+        fail(f'raised-{type(e).__name__}', observed=repr(e)[:300], what=': building the model')
+        if is_engine_error(e):
+            rec.retire = True
+            raise StopTask()
+        return
+    own_expected = sorted({nm for spec in extras for nm in spec if not nm.startswith('@')})
+    rec.case(key if nz else None, key + (tuple(names),), outcome=('model', len(names) - n))
+    if any(a >= c for a, c in zip(names, names[1:])) or not set(free) <= set(names):
+        fail('reported-free-names-not-sorted-or-without-a-parameter-of-the-likelihood', sorted(set(free) | set(own_expected)), names)
+        return
+    unknown = [nm for nm in names if nm not in values or nm in G.FIXED]
+    if unknown:
+        fail('reported-free-names-contain-a-name-that-is-no-free-parameter', sorted(set(free) | set(own_expected)), names)
+        return
+    x = np.array([values[nm] for nm in names], dtype=float)
+    m = len(names)
+    pos = [names.index(nm) for nm in free]
+    foreign = [i for i in range(m) if names[i] not in free]
+
+    def embed_vec(v, div):
+        out = [0.0] * m
+        for i, p in enumerate(pos):
+            out[p] = v[i] / div
+        return out
+
+    def embed_mat(mt, div):
+        out = [[0.0] * m for _ in range(m)]
+        for i, p in enumerate(pos):
+            for j, q in enumerate(pos):
+                out[p][q] = mt[i][j] / div
+        return out
+
+    ssize = float(len(rows))
+    for scaled in (False, True):
+        form = 'scaled' if scaled else 'unscaled'
+        div = ssize if scaled else 1.0
+        try:
+            res = b.calculate_likelihood_and_derivatives(x, scaled=scaled, hessian=True, bhhh=True)
+            f = float(res.function)
+            g = np.asarray(res.gradient, dtype=float)
+            h = np.asarray(res.hessian, dtype=float)
+            bm = np.asarray(res.bhhh, dtype=float)
+        except Exception as e:
+            fail(f'raised-{type(e).__name__}', observed=repr(e)[:300],
+                 what=f': calculate_likelihood_and_derivatives ({form}) refuses the vector built from the {m} reported names {names}')
+            if is_engine_error(e):
+                rec.retire = True
+                raise StopTask()
+            return
+        if g.shape != (m,) or h.shape != (m, m) or bm.shape != (m, m):
+            fail('derivatives-size-differs-from-reported-names', names, (g.shape, h.shape, bm.shape), what=f' [{form}]')
+            return
+        if not dclose(f, aggF / div):
+            fail('likelihood-value', aggF / div, f, what=f' [{form}]')
+        elif not _cmp_vec(list(g), embed_vec(aggG, div)):
+            fail('gradient-entry-i-not-the-derivative-for-the-i-th-reported-name', dict(zip(names, embed_vec(aggG, div))),
+                 dict(zip(names, map(float, g))), what=f' [{form}]')
+        elif not _cmp_mat(h.tolist(), embed_mat(aggH, div)):
+            if not _matches_pow2_quirk_model(term, free, rows, ws, values, h.tolist(), pos, m, div):
+                fail('hessian-entry-ij-not-the-derivative-for-the-reported-names', embed_mat(aggH, div), h.tolist(), what=f' [{form}]')
+        elif not _symmetric(h.tolist()):
+            fail('hessian-not-symmetric', None, h.tolist(), what=f' [{form}]')
+        elif aggB is not None and not _cmp_mat(bm.tolist(), embed_mat(aggB, div)):
+            fail('bhhh-not-sum-of-outer-products', embed_mat(aggB, div), bm.tolist(), what=f' [{form}]')
+        elif aggB is None and (not _symmetric(bm.tolist()) or any(bm[i][j] != 0.0 for i in foreign for j in range(m))):
+            fail('bhhh-not-symmetric-or-non-zero-for-a-parameter-the-likelihood-does-not-contain', None, bm.tolist(), what=f' [{form}]')
+    # the model's own self-check and its value-only entry point, at the same vector
+    try:
+        f1 = float(b.calculate_likelihood(x, scaled=False))
+        f0, g0, h0, gdiff, hdiff = b.check_derivatives(x)
+        g0 = np.asarray(g0, dtype=float)
+        gdiff = np.asarray(gdiff, dtype=float)
+    except Exception as e:
+        fail(f'raised-{type(e).__name__}', observed=repr(e)[:300], what=': calculate_likelihood / check_derivatives at the vector '
+             f'built from the reported names {names}')
+        if is_engine_error(e):
+            rec.retire = True
+            raise StopTask()
+        return
+    if not dclose(f1, aggF) or not dclose(float(f0), aggF):
+        fail('likelihood-value', aggF, (f1, float(f0)), what=' [calculate_likelihood / check_derivatives]')
+    elif g0.shape != (m,) or gdiff.shape != (m,) or not _cmp_vec(list(g0), embed_vec(aggG, 1.0)):
+        fail('gradient-entry-i-not-the-derivative-for-the-i-th-reported-name', dict(zip(names, embed_vec(aggG, 1.0))),
+             list(map(float, g0)), what=' [check_derivatives]')
+    else:
+        S = max([1.0, abs(aggF)] + [abs(v) * max(1.0, abs(values[nm])) for v, nm in zip(aggG, free)])
+        if any(abs(float(d)) * max(1.0, abs(float(xi))) > 1e-4 * S for d, xi in zip(gdiff, x)):
+            fail('check_derivatives-gdiff-not-small', None, list(map(float, gdiff)), what=' [check_derivatives]')
+
+
+def _matches_pow2_quirk_model(term, free, rows, ws, values, observed, pos, m, div):
+    """The engine's known PowerConstant(2) defect, mimicked (see _matches_pow2_quirk)."""
+    try:
+        n = len(free)
+        agg = [[0.0] * m for _ in range(m)]
+        for w, (_, row, _, _, _) in zip(ws, rows):
+            _, _, h = R.evaluate_hd(term, free, row, values, strict=False, quirks=('pow2_hessian',))
+            for i in range(n):
+                for j in range(n):
+                    agg[pos[i]][pos[j]] += w * h[i][j] / div
+        return _cmp_mat(observed, agg)
+    except Exception:
+        return False
+
+
+# ------------------------------------------------------------------ finite differences at points of every magnitude and sign
+FD_MAGNITUDES_QUICK = (1.0, 1e3, 1e6, 1e9, 1e12)
+FD_MAGNITUDES_THOROUGH = (1.0, 1e1, 1e2, 1e3, 1e4, 1e5, 1e6, 1e7, 1e8, 1e9, 1e10, 1e11, 1e12, 1e13, 1e14, 1e15)
+
+
+def _fd_space(tier, pi):
+    """(scaled parameters, magnitude, signs): one parameter of the formula - in the thorough tier also every pair - is
+    expressed in another unit (the formula multiplies it by 1/magnitude, its value is sign * magnitude * |declared value|)."""
+    term = pool()[pi]
+    free = sorted(b for b in R.leaves(term, 'beta') if b in G.FREE)
+    mags = FD_MAGNITUDES_QUICK if tier == 'quick' else FD_MAGNITUDES_THOROUGH
+    subsets = [(p,) for p in free]
+    if tier != 'quick':
+        subsets += list(itertools.combinations(free, 2))
+    for sub in subsets:
+        for mag in mags:
+            for signs in itertools.product((1, -1), repeat=len(sub)):
+                yield list(sub), mag, list(signs)
+
+
+def _findiff_scaled(rec, pi, scaled_params, mag, signs):
+    """The finite-difference tools (tools.derivatives.findiff_g / findiff_h / check_derivatives on the function made from a
+    formula; BIOGEME.check_derivatives and BIOGEME.likelihood_finite_difference_hessian on a model) at a point where some
+    parameters are large or small, positive or negative.  Oracle, in the dimensionless coordinates t_i = x_i / max(1, |x_i|):
+    the finite-difference gradient and Hessian agree with the exact ones within 1e-4 of the largest dimensionless quantity
+    (what a forward difference with a step of the order of sqrt(machine precision) relative to the size of each parameter
+    achieves with a margin of three orders of magnitude), and the discrepancies reported by the self-checks for these
+    exact derivatives are that small."""
+    import numpy as np
+    from vf.engine import make_db, make_biogeme, is_engine_error
+    import biogeme.tools.derivatives as td
+    base = pool()[pi]
+    free = sorted(b for b in R.leaves(base, 'beta') if b in G.FREE)
+    n = len(free)
+    values = dict(G.PARAMS)
+    mapping = {}
+    for p, sg in zip(scaled_params, signs):
+        mapping[('beta', p)] = ('*', ('num', 1.0 / mag), ('beta', p))
+        values[p] = sg * mag * abs(G.PARAMS[p])
+    term = R.subst(base, mapping) if mag != 1.0 else base
+    if mag == 1.0:
+        mapping = {}
+    rows = ref_rows(term, values, free, rec)
+    label = '/'.join(f'{p}:{"+" if sg > 0 else "-"}' for p, sg in zip(scaled_params, signs)) + f'@{mag:g}'
+    key = ('findiff_scaled', pi, label)
+    case = dict(part='findiff_scaled', pool=pi, params=list(scaled_params), mag=mag, signs=list(signs))
+    if not rows:
+        rec.case(None, key + ('no-row',), outcome='no-valid-row')
+        return
+    aggF = sum(r[2] for r in rows)
+    aggG = _sum_vec([r[3] for r in rows], n)
+    aggH = _sum_mat([r[4] for r in rows], n)
+    sc = [max(1.0, abs(values[nm])) for nm in free]
+    Gd = [aggG[i] * sc[i] for i in range(n)]
+    Hd = [[aggH[i][j] * sc[i] * sc[j] for j in range(n)] for i in range(n)]
+    S = max([1.0, abs(aggF)] + [abs(v) for v in Gd] + [abs(v) for r_ in Hd for v in r_])
+    tol = 1e-4 * S
+    sign_class = 'negative' if any(sg < 0 for sg in signs) else 'positive'
+    mag_class = 'ordinary-magnitude' if mag == 1.0 else 'large-magnitude'
+    wit = f'{sign_class}-parameter-of-{mag_class}'
+    nzk = key if any(v != 0.0 for v in aggG) else None
+
+    def fail(clause, entry, expected=None, observed=None):
+        rec.violation(f'C02|{clause}|{entry}:{wit}',
+                      f'{clause} [{entry}] for {R.show(term)} at {dict((nm, values[nm]) for nm in free)}; in dimensionless '
+                      f'coordinates the tolerance is {tol:.3g}', case, expected=expected, observed=observed)
+
+    def g_ok(gv):
+        return len(gv) == n and all(math.isfinite(float(a)) and abs(float(a) - w) * s <= tol for a, w, s in zip(gv, aggG, sc))
+
+    def h_ok(hv):
+        return all(math.isfinite(float(hv[i][j])) and abs(float(hv[i][j]) - aggH[i][j]) * sc[i] * sc[j] <= tol
+                   for i in range(n) for j in range(n))
+
+    db = make_db([r[1] for r in rows], G.COLUMNS)
+    # 1. the function made from the formula
+    try:
+        expr = R.Builder(G.betas_spec()).build(term)
+        fct = expr.create_function(database=db, number_of_draws=10, gradient=True, hessian=True, bhhh=False)
+        names = list(expr.id_manager.free_betas.names)
+        x = np.array([values[nm] for nm in names], dtype=float)
+
+        def f_only(xx):
+            return fct(xx).function_output
+
+        g_fd = td.findiff_g(f_only, x)
+        h_fd = td.findiff_h(f_only, x)
+        f0, g0, h0, gdiff, hdiff = td.check_derivatives(f_only, x, names=names, logg=False)
+    except Exception as e:
+        rec.case(nzk, key + ('raised', type(e).__name__), outcome='raised')
+        fail(f'findiff-raised-{type(e).__name__}', 'tools.derivatives', observed=repr(e)[:300])
+        if is_engine_error(e):
+            rec.retire = True
+            raise StopTask()
+        return
+    rec.case(nzk, key + ([float(f'{float(v) * s:.4g}') for v, s in zip(g_fd, sc)],), outcome=('findiff', mag_class, sign_class))
+    if names != free:
+        fail('reported-free-names-not-sorted', 'create_function', free, names)
+        return
+    exact_ok = dclose(float(f0), aggF) and all(abs(float(a) - w) * s <= 1e-8 * S for a, w, s in zip(g0, aggG, sc)) \
+        and all(abs(float(h0[i][j]) - aggH[i][j]) * sc[i] * sc[j] <= 1e-8 * S for i in range(n) for j in range(n))
+    if not exact_ok:
+        if not _matches_pow2_quirk(term, free, rows, values, [list(map(float, r_)) for r_ in h0], 'hessian', 'agg'):
+            fail('check_derivatives-analytical-part', 'tools.derivatives', (aggF, aggG, aggH),
+                 (float(f0), list(map(float, g0)), [list(map(float, r_)) for r_ in h0]))
+        return
+    if not g_ok(g_fd):
+        fail('findiff_g-disagrees-with-the-exact-gradient', 'tools.derivatives', aggG, list(map(float, g_fd)))
+    if not h_ok(h_fd):
+        fail('findiff_h-disagrees-with-the-exact-hessian', 'tools.derivatives', aggH, [list(map(float, r_)) for r_ in h_fd])
+    if not all(abs(float(d)) * s <= tol for d, s in zip(gdiff, sc)):
+        fail('check_derivatives-gdiff-not-small', 'tools.derivatives', None, list(map(float, gdiff)))
+    if not all(abs(float(hdiff[i][j])) * sc[i] * sc[j] <= tol for i in range(n) for j in range(n)):
+        fail('check_derivatives-hdiff-not-small', 'tools.derivatives', None, [list(map(float, r_)) for r_ in hdiff])
+    # 2. the same formula as the log likelihood of a model
+    try:
+        b = make_biogeme(db, R.Builder(G.betas_spec()).build(term))
+        bnames = list(b.free_beta_names)
+        xb = np.array([values[nm] for nm in bnames], dtype=float)
+        bf0, bg0, bh0, bgdiff, bhdiff = b.check_derivatives(xb)
+        bh_fd = b.likelihood_finite_difference_hessian(xb)
+    except Exception as e:
+        fail(f'findiff-raised-{type(e).__name__}', 'BIOGEME', observed=repr(e)[:300])
+        if is_engine_error(e):
+            rec.retire = True
+            raise StopTask()
+        return
+    if bnames != free:
+        fail('reported-free-names-not-sorted', 'BIOGEME', free, bnames)
+        return
+    if not all(abs(float(d)) * s <= tol for d, s in zip(bgdiff, sc)):
+        fail('check_derivatives-gdiff-not-small', 'BIOGEME.check_derivatives', None, list(map(float, bgdiff)))
+    if not all(abs(float(bhdiff[i][j])) * sc[i] * sc[j] <= tol for i in range(n) for j in range(n)):
+        fail('check_derivatives-hdiff-not-small', 'BIOGEME.check_derivatives', None, [list(map(float, r_)) for r_ in bhdiff])
+    if not h_ok(bh_fd):
+        fail('findiff_h-disagrees-with-the-exact-hessian', 'BIOGEME.likelihood_finite_difference_hessian', aggH,
+             [list(map(float, r_)) for r_ in bh_fd])
+
+
 def _nodb(rec):
     """Derivatives of variable-free formulas without a database."""
     from vf.engine import is_engine_error
@@ -918,6 +1325,10 @@ def replay(case):
             check_formula(term, rec, 'replay', f'tree-root:{term[0]}', case, ['disagg', 'agg'])
         elif part == 'findiff':
             _findiff(rec)
+        elif part == 'findiff_scaled':
+            _findiff_scaled(rec, case['pool'], case['params'], case['mag'], case['signs'])
+        elif part == 'model_formulas':
+            _model_formulas(rec, case['pool'], case['config'], case['order'], case['point'])
         elif part == 'named_api':
             _named_api(rec)
         elif part == 'integrate':
